@@ -279,6 +279,8 @@ func c34ItxnFieldArg(f c34Field) c34Val {
 	switch f.Name {
 	case "Type":
 		return c34Bytes([]byte("pay"))
+	case "ConfigAssetUnitName", "ConfigAssetName", "ConfigAssetURL":
+		return c34Bytes([]byte("u"))
 	case "TypeEnum":
 		return c34Int(1)
 	case "XferAsset", "ConfigAsset", "FreezeAsset", "Assets":
@@ -540,21 +542,27 @@ func c34Run(program []byte, target int, mode RunMode, trace int, budget int) c34
 	tr := &c34Tracer{target: target, maxVisit: trace}
 	proto := c34Proto(budget)
 	var res c34Result
+	// The same ledger state backs both modes. Signature evaluation has no ledger in production; giving
+	// it one here removes the accidental second line of defence (nil ledger panic) so that the mode
+	// gate itself is what the monitor observes. Likewise application-mode transactions carry
+	// logicsig arguments so that `arg` would work if its mode gate were missing.
+	ledger := NewLedger(map[basics.Address]uint64{c34Sender: 1_000_000_000, basics.AppIndex(c34App).Address(): 1_000_000_000})
+	ledger.NewApp(c34Sender, c34App, makeApp(10, 10, 10, 10))
+	ledger.NewLocals(c34Sender, c34App)
+	ledger.NewLocal(c34Sender, c34App, "k", 1)
+	ledger.NewGlobal(c34App, "k", 1)
+	ledger.NewAsset(c34Sender, c34Asset, basics.AssetParams{Total: 1000, UnitName: "u", AssetName: "n", URL: "x"})
+	_ = ledger.NewBox(c34App, c34Box, make([]byte, 16), basics.AppIndex(c34App).Address())
+	args := [][]byte{[]byte("a0"), []byte("a1"), []byte("a2"), []byte("a3")}
 	if mode == ModeApp {
 		t0, t1 := makeSampleAppl(c34App), makeSampleAppl(c34App)
 		for _, t := range []*transactions.SignedTxn{&t0, &t1} {
 			t.Txn.Boxes = []transactions.BoxRef{{Index: 0, Name: []byte(c34Box)}, {}}
 			t.Txn.ApprovalProgram = []byte{0x06, 0x81, 0x01}
 			t.Txn.ClearStateProgram = []byte{0x06, 0x81, 0x01}
+			t.Lsig.Args = args
 		}
 		ep := NewAppEvalParams(transactions.WrapSignedTxnsWithAD([]transactions.SignedTxn{t0, t1}), proto, &transactions.SpecialAddresses{})
-		ledger := NewLedger(map[basics.Address]uint64{c34Sender: 1_000_000_000, basics.AppIndex(c34App).Address(): 1_000_000_000})
-		ledger.NewApp(c34Sender, c34App, makeApp(10, 10, 10, 10))
-		ledger.NewLocals(c34Sender, c34App)
-		ledger.NewLocal(c34Sender, c34App, "k", 1)
-		ledger.NewGlobal(c34App, "k", 1)
-		ledger.NewAsset(c34Sender, c34Asset, basics.AssetParams{Total: 1000, UnitName: "u", AssetName: "n", URL: "x"})
-		_ = ledger.NewBox(c34App, c34Box, make([]byte, 16), basics.AppIndex(c34App).Address())
 		ep.Ledger = ledger
 		ep.SigLedger = ledger
 		ep.Tracer = tr
@@ -569,10 +577,14 @@ func c34Run(program []byte, target int, mode RunMode, trace int, budget int) c34
 			t.Txn.Type = protocol.PaymentTx
 			t.Txn.RekeyTo = basics.Address{}
 			t.Lsig.Logic = program
-			t.Lsig.Args = [][]byte{[]byte("a0"), []byte("a1"), []byte("a2"), []byte("a3")}
+			t.Lsig.Args = args
 		}
-		ledger := NewLedger(nil)
 		ep := NewSigEvalParams([]transactions.SignedTxn{t0, t1}, proto, ledger)
+		ep.Ledger = ledger
+		ep.EvalConstants = RuntimeEvalConstants()
+		ep.appAddrCache = make(map[basics.AppIndex]basics.Address)
+		ep.pastScratch[0] = &scratchSpace{}
+		ep.TxnGroup[0].ApplyData.ApplicationID = 5000
 		ep.Tracer = tr
 		res.checkErr = CheckSignature(1, ep)
 		res.pass, _, res.evalErr = EvalSignatureFull(1, ep)
